@@ -12,7 +12,7 @@ def plan(tier):
         Q(P, 2, ['****']),                                # reversible toggle a/-a (default 1), toggle b without letter
         Q(P, 2, ['--no-?']), Q(P, 2, ['--no-a', '***']), Q(P, 2, ['--a', '***']), Q(P, 2, ['-a', '--b', '--no-?'], wit=(W_ERR,)),
         Q(P, 1, ['-*****']),                              # counts across bundles of x and y
-        Q(P, 1, ['-x', '--a', '-***']),                   # mixed long/short/bundled spellings
+        Q(P, 1, ['-x', '--a', '-**']),                    # mixed long/short/bundled spellings
         Q(P, 12, ['****'], wit=(W_OK, W_ERR)),            # toggle with default 2
         Q(P, 5, [], env={2: '********'}, k=10, more_profile=[[ord(c) for c in w] + [0] * (8 - len(w)) for w in ('WITHOUT', 'without', 'True', 'FALSE', 'yes', 'Off', '1', 'N')]),   # closed vocabulary: every string up to 8 bytes
         Q(P, 5, ['-*'], env={2: '***'}),                  # env consulted only when not given
